@@ -1,1 +1,1031 @@
-(* placeholder: being written *)
+(* Proofs/RateLimitProofs.v — lemmas about the rate-limiter model (Model/RateLimit.v). *)
+From Coq Require Import List QArith Qminmax Lqa Bool Lia ZArith NArith.
+From Verif Require Import Gen.Facts Model.TokenBucket Model.RateLimit Proofs.TokenBucketProofs.
+Import ListNotations.
+Open Scope Q_scope.
+
+(* ================= keys and association lists ================= *)
+Lemma optype_eqb_spec a b : reflect (a = b) (optype_eqb a b).
+Proof. destruct a, b; cbn; constructor; congruence. Qed.
+
+Lemma key_eqb_spec a b : reflect (a = b) (key_eqb a b).
+Proof.
+  destruct a as [|x|x|x o], b as [|y|y|y p]; cbn; try (constructor; congruence).
+  - destruct (N.eqb_spec x y); constructor; congruence.
+  - destruct (N.eqb_spec x y); constructor; congruence.
+  - destruct (N.eqb_spec x y), (optype_eqb_spec o p); cbn; constructor; congruence.
+Qed.
+Lemma key_eqb_refl k : key_eqb k k = true.
+Proof. destruct (key_eqb_spec k k); congruence. Qed.
+Lemma key_eqb_neq k k' : k <> k' -> key_eqb k k' = false.
+Proof. destruct (key_eqb_spec k k'); congruence. Qed.
+
+Lemma find_upd_same k b m : find k (upd k b m) = Some b.
+Proof.
+  induction m as [|[k' b'] r IH]; cbn.
+  - rewrite key_eqb_refl. reflexivity.
+  - destruct (key_eqb k k') eqn:E; cbn.
+    + rewrite key_eqb_refl. reflexivity.
+    + rewrite E. exact IH.
+Qed.
+Lemma find_upd_other k k' b m : k' <> k -> find k' (upd k b m) = find k' m.
+Proof.
+  intros Hne. induction m as [|[k0 b0] r IH]; cbn.
+  - rewrite (key_eqb_neq _ _ Hne). reflexivity.
+  - destruct (key_eqb k k0) eqn:E; cbn.
+    + destruct (key_eqb_spec k k0) as [->|]; [|discriminate].
+      rewrite (key_eqb_neq _ _ Hne). reflexivity.
+    + destruct (key_eqb k' k0); [reflexivity|exact IH].
+Qed.
+Lemma in_keys_upd x k b m : In x (map fst (upd k b m)) -> x = k \/ In x (map fst m).
+Proof.
+  induction m as [|[k0 b0] r IH]; cbn.
+  - intros [H|[]]; left; congruence.
+  - destruct (key_eqb k k0) eqn:E; cbn.
+    + destruct (key_eqb_spec k k0) as [->|]; [|discriminate]. intros [H|H]; [left; congruence|right; right; exact H].
+    + intros [H|H]; [right; left; exact H|]. destruct (IH H) as [H1|H1]; [left; exact H1|right; right; exact H1].
+Qed.
+Lemma NoDup_upd k b m : NoDup (map fst m) -> NoDup (map fst (upd k b m)).
+Proof.
+  induction m as [|[k0 b0] r IH]; cbn; intros H.
+  - constructor; [intros []|constructor].
+  - inversion H as [|? ? Hn Hr]; subst. destruct (key_eqb k k0) eqn:E; cbn.
+    + destruct (key_eqb_spec k k0) as [->|]; [|discriminate]. constructor; assumption.
+    + constructor; [|apply IH; exact Hr]. intros Hin. destruct (in_keys_upd _ _ _ _ Hin) as [->|H1].
+      * rewrite key_eqb_refl in E. discriminate.
+      * contradiction.
+Qed.
+Lemma find_none_notin k m : find k m = None -> ~ In k (map fst m).
+Proof.
+  induction m as [|[k0 b0] r IH]; cbn; [tauto|].
+  destruct (key_eqb_spec k k0) as [->|Hne]; [discriminate|]. intros H [H1|H1]; [congruence|exact (IH H H1)].
+Qed.
+Lemma notin_find_none k m : ~ In k (map fst m) -> find k m = None.
+Proof.
+  induction m as [|[k0 b0] r IH]; cbn; [reflexivity|].
+  intros H. destruct (key_eqb_spec k k0) as [->|Hne]; [tauto|]. apply IH. tauto.
+Qed.
+Lemma find_in k b m : find k m = Some b -> In (k, b) m.
+Proof.
+  induction m as [|[k0 b0] r IH]; cbn; [discriminate|].
+  destruct (key_eqb_spec k k0) as [->|Hne]; [intros H; left; congruence|intros H; right; exact (IH H)].
+Qed.
+Lemma in_keys_filter {p : key * tb -> bool} x m : In x (map fst (filter p m)) -> In x (map fst m).
+Proof.
+  induction m as [|e r IH]; cbn; [tauto|]. destruct (p e); cbn; intros H; [destruct H as [H|H]; [left; exact H|right; exact (IH H)]|right; exact (IH H)].
+Qed.
+Lemma NoDup_filter (p : key * tb -> bool) m : NoDup (map fst m) -> NoDup (map fst (filter p m)).
+Proof.
+  induction m as [|e r IH]; cbn; intros H; [constructor|].
+  inversion H as [|? ? Hn Hr]; subst. destruct (p e); cbn; [|apply IH; exact Hr].
+  constructor; [|apply IH; exact Hr]. intros Hin. apply Hn. exact (in_keys_filter _ _ Hin).
+Qed.
+(* with unique keys, filtering keeps or drops exactly the entry of k *)
+Lemma find_filter (p : key * tb -> bool) k m : NoDup (map fst m) ->
+  find k (filter p m) = match find k m with Some b => if p (k, b) then Some b else None | None => None end.
+Proof.
+  induction m as [|[k0 b0] r IH]; cbn; intros H; [reflexivity|].
+  inversion H as [|? ? Hn Hr]; subst.
+  destruct (key_eqb_spec k k0) as [->|Hne].
+  - destruct (p (k0, b0)) eqn:Ep; cbn.
+    + rewrite key_eqb_refl. reflexivity.
+    + apply notin_find_none. intros Hin. apply Hn. exact (in_keys_filter _ _ Hin).
+  - destruct (p (k0, b0)); cbn; [rewrite (key_eqb_neq _ _ Hne)|]; apply IH; exact Hr.
+Qed.
+
+(* ================= configuration sanity and the state invariant ================= *)
+Definition lim_ok (lim : limits) : Prop := forall k, 0 <= rate_of lim k /\ 0 <= burst_of lim k.
+
+(* every bucket carries its limiter's rate and burst, was last touched in the past, holds >= 0 tokens; keys unique *)
+Record inv (lim : limits) (m : list (key * tb)) (now : Q) : Prop := {
+  inv_nodup : NoDup (map fst m);
+  inv_bucket : forall k b, find k m = Some b ->
+      rate b = rate_of lim k /\ maxT b = burst_of lim k /\ last b <= now /\ 0 <= tokens b }.
+
+Lemma inv_wf lim m now k b : lim_ok lim -> inv lim m now -> find k m = Some b -> wf b /\ last b <= now.
+Proof.
+  intros Hok Hi Hf. destruct (inv_bucket _ _ _ Hi _ _ Hf) as (Hr & Hm & Hl & Ht). destruct (Hok k) as [H1 H2].
+  unfold wf. rewrite Hr, Hm. repeat split; assumption.
+Qed.
+Lemma inv_later lim m now now' : inv lim m now -> now <= now' -> inv lim m now'.
+Proof.
+  intros [Hn Hb] Hle. split; [exact Hn|]. intros k b Hf. destruct (Hb _ _ Hf) as (H1 & H2 & H3 & H4).
+  repeat split; try assumption. lra.
+Qed.
+Lemma inv_init lim t0 : lim_ok lim -> inv lim (buckets (init lim t0)) t0.
+Proof.
+  intros Hok. split; cbn.
+  - constructor; [intros []|constructor].
+  - intros k b. destruct (key_eqb_spec k KGlobal) as [->|]; [|discriminate].
+    intros H; inversion H; subst; cbn. destruct (Hok KGlobal). repeat split; try reflexivity; lra.
+Qed.
+
+(* ---- level ---- *)
+Lemma level_present lim m k b now : find k m = Some b -> level lim m k now = refilled b now.
+Proof. unfold level, tokens_at. intros ->. reflexivity. Qed.
+Lemma level_absent lim m k now : find k m = None -> level lim m k now = burst_of lim k.
+Proof. unfold level. intros ->. reflexivity. Qed.
+
+Lemma level_le_burst lim m now k t : inv lim m now -> level lim m k t <= burst_of lim k.
+Proof.
+  intros Hi. unfold level, tokens_at. destruct (find k m) as [b|] eqn:E; [|lra].
+  destruct (inv_bucket _ _ _ Hi _ _ E) as (_ & Hm & _). rewrite <- Hm. apply refilled_le_max.
+Qed.
+Lemma level_nonneg lim m now k t : lim_ok lim -> inv lim m now -> now <= t -> 0 <= level lim m k t.
+Proof.
+  intros Hok Hi Hle. unfold level, tokens_at. destruct (find k m) as [b|] eqn:E; [|apply Hok].
+  destruct (inv_wf _ _ _ _ _ Hok Hi E) as [Hwf Hl]. apply refilled_nonneg; [exact Hwf|lra].
+Qed.
+(* the level at a later time is the earlier level refilled and capped, for present and absent buckets alike *)
+Lemma level_later lim m now now' k : lim_ok lim -> inv lim m now -> now <= now' ->
+  level lim m k now' == cap (burst_of lim k) (level lim m k now + (now' - now) * rate_of lim k).
+Proof.
+  intros Hok Hi Hle. destruct (Hok k) as [Hr Hb].
+  assert (Hd : 0 <= (now' - now) * rate_of lim k) by (apply Qmult_le_0_compat; lra).
+  unfold level, tokens_at. destruct (find k m) as [b|] eqn:E.
+  - destruct (inv_bucket _ _ _ Hi _ _ E) as (Hrb & Hmb & _ & _). rewrite <- Hrb, <- Hmb.
+    apply refilled_later; [rewrite Hrb; exact Hr|exact Hle].
+  - symmetry. apply cap_full. lra.
+Qed.
+Lemma level_later_le lim m now now' k : lim_ok lim -> inv lim m now -> now <= now' ->
+  level lim m k now' <= level lim m k now + (now' - now) * rate_of lim k.
+Proof. intros Hok Hi Hle. rewrite (level_later _ _ _ _ k Hok Hi Hle). apply cap_le_arg. Qed.
+Lemma level_mono_time lim m now now' k : lim_ok lim -> inv lim m now -> now <= now' ->
+  level lim m k now <= level lim m k now'.
+Proof.
+  intros Hok Hi Hle. rewrite (level_later _ _ _ _ k Hok Hi Hle). destruct (Hok k) as [Hr Hb].
+  assert (Hd : 0 <= (now' - now) * rate_of lim k) by (apply Qmult_le_0_compat; lra).
+  apply cap_glb; [apply (level_le_burst _ _ _ _ _ Hi)|lra].
+Qed.
+
+(* ================= cleanup passes and CleanupConnection ================= *)
+(* any pass that drops only full buckets changes no level *)
+Lemma filter_inv lim m now (p : key * tb -> bool) : inv lim m now -> inv lim (filter p m) now.
+Proof.
+  intros Hi. split; [apply NoDup_filter, (inv_nodup _ _ _ Hi)|].
+  intros k b Hf. rewrite (find_filter p k m (inv_nodup _ _ _ Hi)) in Hf.
+  destruct (find k m) as [b0|] eqn:E; [|discriminate]. destruct (p (k, b0)); [|discriminate].
+  inversion Hf; subst. exact (inv_bucket _ _ _ Hi _ _ E).
+Qed.
+Lemma filter_level lim m now (p : key * tb -> bool) :
+  inv lim m now ->
+  (forall k b, find k m = Some b -> p (k, b) = false -> full lim k b now = true) ->
+  forall k, level lim (filter p m) k now == level lim m k now.
+Proof.
+  intros Hi Hfull k. unfold level. rewrite (find_filter p k m (inv_nodup _ _ _ Hi)).
+  destruct (find k m) as [b|] eqn:E; [|reflexivity].
+  destruct (p (k, b)) eqn:Ep; [reflexivity|].
+  specialize (Hfull _ _ E Ep). unfold full in Hfull. apply Qle_bool_true in Hfull.
+  pose proof (level_le_burst lim m now k now Hi) as Hle. unfold level in Hle. rewrite E in Hle. lra.
+Qed.
+
+Lemma cleanup_ip_full lim sel now m k b :
+  find k m = Some b ->
+  (match fst (k, b) with KIP ip => negb (full lim (fst (k, b)) (snd (k, b)) now && sel ip) | _ => true end) = false ->
+  full lim k b now = true.
+Proof.
+  intros _. cbn [fst snd]. destruct k; try discriminate.
+  destruct (full lim (KIP ip) b now); [reflexivity|discriminate].
+Qed.
+Lemma cleanup_op_full lim now m k b :
+  find k m = Some b ->
+  (match fst (k, b) with KOp ip _ => negb (all_full lim ip now m) | _ => true end) = false ->
+  full lim k b now = true.
+Proof.
+  intros Hf. cbn [fst]. destruct k as [| | |ip op]; try discriminate.
+  intros H. apply negb_false_iff in H. unfold all_full in H. rewrite forallb_forall in H.
+  specialize (H _ (find_in _ _ _ Hf)). cbn [fst snd] in H. rewrite N.eqb_refl in H. exact H.
+Qed.
+
+Lemma pre_cleanup_spec e lim i st k now :
+  inv lim (buckets st) now ->
+  inv lim (buckets (pre_cleanup e lim i st k now)) now /\
+  forall k', level lim (buckets (pre_cleanup e lim i st k now)) k' now == level lim (buckets st) k' now.
+Proof.
+  intros Hi. unfold pre_cleanup. destruct k as [|ip|c|ip op].
+  - split; [exact Hi|reflexivity].
+  - destruct (trig e i (KIP ip) now (lc_ip st)); [|split; [exact Hi|reflexivity]]. cbn [buckets].
+    split; [apply filter_inv; exact Hi|].
+    apply filter_level; [exact Hi|]. intros k b Hf Hp. exact (cleanup_ip_full lim (sel e i) now _ k b Hf Hp).
+  - split; [exact Hi|reflexivity].
+  - destruct (trig e i (KOp ip op) now (lc_op st)); [|split; [exact Hi|reflexivity]]. cbn [buckets].
+    split; [apply filter_inv; exact Hi|].
+    apply filter_level; [exact Hi|]. intros k b Hf Hp. exact (cleanup_op_full lim now _ k b Hf Hp).
+Qed.
+(* a cleanup pass never touches the global bucket (nor any bucket of another class) *)
+Lemma find_filter_keep (p : key * tb -> bool) k m : (forall b, p (k, b) = true) -> find k (filter p m) = find k m.
+Proof.
+  intros Hp. induction m as [|[k0 b0] r IH]; cbn; [reflexivity|].
+  destruct (key_eqb_spec k k0) as [->|Hne].
+  - rewrite Hp. cbn. rewrite key_eqb_refl. reflexivity.
+  - destruct (p (k0, b0)); cbn; [rewrite (key_eqb_neq _ _ Hne)|]; exact IH.
+Qed.
+Lemma pre_cleanup_global e lim i st k now :
+  find KGlobal (buckets (pre_cleanup e lim i st k now)) = find KGlobal (buckets st).
+Proof.
+  unfold pre_cleanup. destruct k as [|ip|c|ip op]; try reflexivity.
+  - destruct (trig e i (KIP ip) now (lc_ip st)); [|reflexivity]. cbn [buckets]. apply find_filter_keep. reflexivity.
+  - destruct (trig e i (KOp ip op) now (lc_op st)); [|reflexivity]. cbn [buckets]. apply find_filter_keep. reflexivity.
+Qed.
+
+Lemma remove_inv lim m now k0 : inv lim m now -> inv lim (remove k0 m) now.
+Proof. apply filter_inv. Qed.
+Lemma find_remove_other k0 k m : k <> k0 -> find k (remove k0 m) = find k m.
+Proof.
+  intros Hne. induction m as [|[k1 b1] r IH]; cbn; [reflexivity|].
+  destruct (key_eqb_spec k0 k1) as [->|Hne1]; cbn.
+  - rewrite (key_eqb_neq _ _ Hne). exact IH.
+  - destruct (key_eqb k k1); [reflexivity|exact IH].
+Qed.
+Lemma find_remove_same k0 m : find k0 (remove k0 m) = None.
+Proof.
+  induction m as [|[k1 b1] r IH]; cbn; [reflexivity|].
+  destruct (key_eqb_spec k0 k1) as [->|Hne1]; cbn; [exact IH|]. rewrite (key_eqb_neq _ _ Hne1). exact IH.
+Qed.
+
+(* ================= one consultation ================= *)
+Lemma consult_spec e lim i st k now a st' :
+  lim_ok lim -> inv lim (buckets st) now -> consult e lim i st k now = (a, st') ->
+  inv lim (buckets st') now /\
+  (a = true <-> 1 <= level lim (buckets st) k now) /\
+  level lim (buckets st') k now == level lim (buckets st) k now - (if a then 1 else 0) /\
+  (forall k', k' <> k -> level lim (buckets st') k' now == level lim (buckets st) k' now).
+Proof.
+  intros Hok Hi. unfold consult.
+  destruct (pre_cleanup_spec e lim i st k now Hi) as [Hi1 Hl1].
+  set (st1 := pre_cleanup e lim i st k now) in *. clearbody st1.
+  set (b := match find k (buckets st1) with Some b => b | None => mk (rate_of lim k) (burst_of lim k) now end).
+  assert (Hb : wf b /\ last b <= now /\ rate b = rate_of lim k /\ maxT b = burst_of lim k /\
+               refilled b now == level lim (buckets st1) k now).
+  { unfold b, level, tokens_at. destruct (find k (buckets st1)) as [b0|] eqn:E.
+    - destruct (inv_wf _ _ _ _ _ Hok Hi1 E) as [Hwf Hl].
+      destruct (inv_bucket _ _ _ Hi1 _ _ E) as (Hr & Hm & _ & _). repeat split; try assumption; try apply Hwf.
+    - destruct (Hok k) as [Hr Hbu]. split; [apply wf_mk; assumption|]. cbn [mk last rate maxT].
+      repeat split; try reflexivity; try lra. apply refilled_mk. }
+  clearbody b. destruct Hb as (Hwf & Hlast & Hrate & Hmax & Hlev).
+  destruct (allow b now) as [a0 b'] eqn:Ea. intros H; inversion H; subst a0 st'; clear H. cbn [buckets].
+  destruct (allow_spec _ _ _ _ Ea) as (Hm' & Hr' & Hl' & Hc).
+  pose proof (allow_wf _ _ _ _ Ea Hwf Hlast) as Hwf'.
+  pose proof (allow_level _ _ _ _ Ea Hwf Hlast) as Hlev'.
+  split; [|split; [|split]].
+  - split; [apply NoDup_upd, (inv_nodup _ _ _ Hi1)|].
+    intros k2 b2. destruct (key_eqb_spec k2 k) as [->|Hne].
+    + rewrite find_upd_same. intros H; inversion H; subst b2.
+      rewrite Hm', Hr', Hl'. repeat split; try assumption; [lra|apply Hwf'].
+    + rewrite (find_upd_other _ _ _ _ Hne). apply (inv_bucket _ _ _ Hi1).
+  - rewrite <- (Hl1 k), <- Hlev. destruct Hc as [(-> & H1 & _)|(-> & H1 & _)]; split; intros; try lra; try reflexivity; try discriminate.
+  - rewrite (level_present _ _ _ _ _ (find_upd_same k b' (buckets st1))). rewrite Hlev', Hlev, (Hl1 k). reflexivity.
+  - intros k' Hne. unfold level. rewrite (find_upd_other _ _ _ _ Hne). exact (Hl1 k').
+Qed.
+
+(* the global bucket is only ever touched by its own consultation *)
+Lemma consult_global_untouched e lim i st k now a st' :
+  k <> KGlobal -> consult e lim i st k now = (a, st') ->
+  find KGlobal (buckets st') = find KGlobal (buckets st).
+Proof.
+  intros Hne. unfold consult.
+  destruct (allow _ now) as [a0 b']. intros H; inversion H; subst. cbn [buckets].
+  rewrite find_upd_other by congruence. apply pre_cleanup_global.
+Qed.
+
+(* ================= cleanup is invisible: any two environments give the same decisions ================= *)
+(* two states are indistinguishable when every limiter has the same level (an absent bucket counts as full) *)
+Definition sim (lim : limits) (m1 m2 : list (key * tb)) (now : Q) : Prop :=
+  forall k, level lim m1 k now == level lim m2 k now.
+
+Lemma sim_later lim m1 m2 now now' : lim_ok lim -> inv lim m1 now -> inv lim m2 now -> now <= now' ->
+  sim lim m1 m2 now -> sim lim m1 m2 now'.
+Proof.
+  intros Hok H1 H2 Hle Hs k.
+  rewrite (level_later _ _ _ _ k Hok H1 Hle), (level_later _ _ _ _ k Hok H2 Hle).
+  apply cap_compat. rewrite (Hs k). reflexivity.
+Qed.
+
+Lemma consult_sim e1 e2 lim i1 i2 s1 s2 k now a1 a2 s1' s2' :
+  lim_ok lim -> inv lim (buckets s1) now -> inv lim (buckets s2) now -> sim lim (buckets s1) (buckets s2) now ->
+  consult e1 lim i1 s1 k now = (a1, s1') -> consult e2 lim i2 s2 k now = (a2, s2') ->
+  a1 = a2 /\ inv lim (buckets s1') now /\ inv lim (buckets s2') now /\ sim lim (buckets s1') (buckets s2') now.
+Proof.
+  intros Hok Hi1 Hi2 Hs C1 C2.
+  destruct (consult_spec _ _ _ _ _ _ _ _ Hok Hi1 C1) as (Hi1' & Hb1 & Hk1 & Ho1).
+  destruct (consult_spec _ _ _ _ _ _ _ _ Hok Hi2 C2) as (Hi2' & Hb2 & Hk2 & Ho2).
+  assert (Ha : a1 = a2).
+  { pose proof (Hs k) as Hsk. destruct a1, a2; try reflexivity.
+    - assert (H : 1 <= level lim (buckets s1) k now) by (apply Hb1; reflexivity).
+      assert (H' : false = true) by (apply Hb2; lra). discriminate.
+    - assert (H : 1 <= level lim (buckets s2) k now) by (apply Hb2; reflexivity).
+      assert (H' : false = true) by (apply Hb1; lra). discriminate. }
+  subst a2. split; [reflexivity|split; [exact Hi1'|split; [exact Hi2'|]]].
+  intros k'. destruct (key_eqb_spec k' k) as [->|Hne].
+  - rewrite Hk1, Hk2, (Hs k). reflexivity.
+  - rewrite (Ho1 _ Hne), (Ho2 _ Hne). apply Hs.
+Qed.
+
+Lemma consult_seq_sim e1 e2 lim i1 i2 now : lim_ok lim ->
+  forall ks s1 s2 tr1 tr2 s1' s2',
+  inv lim (buckets s1) now -> inv lim (buckets s2) now -> sim lim (buckets s1) (buckets s2) now ->
+  consult_seq e1 lim i1 s1 ks now = (tr1, s1') -> consult_seq e2 lim i2 s2 ks now = (tr2, s2') ->
+  tr1 = tr2 /\ inv lim (buckets s1') now /\ inv lim (buckets s2') now /\ sim lim (buckets s1') (buckets s2') now.
+Proof.
+  intros Hok. induction ks as [|k r IH]; intros s1 s2 tr1 tr2 s1' s2' Hi1 Hi2 Hs C1 C2.
+  - cbn in C1, C2. inversion C1; inversion C2; subst. split; [reflexivity|split; [exact Hi1|split; [exact Hi2|exact Hs]]].
+  - cbn [consult_seq] in C1, C2.
+    destruct (consult e1 lim i1 s1 k now) as [a1 t1] eqn:E1.
+    destruct (consult e2 lim i2 s2 k now) as [a2 t2] eqn:E2.
+    destruct (consult_sim _ _ _ _ _ _ _ _ _ _ _ _ _ Hok Hi1 Hi2 Hs E1 E2) as (-> & Hj1 & Hj2 & Hs').
+    destruct a2.
+    + destruct (consult_seq e1 lim i1 t1 r now) as [u1 v1] eqn:F1.
+      destruct (consult_seq e2 lim i2 t2 r now) as [u2 v2] eqn:F2.
+      inversion C1; inversion C2; subst.
+      destruct (IH _ _ _ _ _ _ Hj1 Hj2 Hs' F1 F2) as (-> & K1 & K2 & K3).
+      split; [reflexivity|split; [exact K1|split; [exact K2|exact K3]]].
+    + inversion C1; inversion C2; subst. split; [reflexivity|split; [exact Hj1|split; [exact Hj2|exact Hs']]].
+Qed.
+
+Lemma step_sim e1 e2 lim ord i1 i2 s1 s2 now ev tr1 tr2 s1' s2' : lim_ok lim ->
+  inv lim (buckets s1) now -> inv lim (buckets s2) now -> sim lim (buckets s1) (buckets s2) now ->
+  step e1 lim ord i1 s1 now ev = (tr1, s1') -> step e2 lim ord i2 s2 now ev = (tr2, s2') ->
+  tr1 = tr2 /\ inv lim (buckets s1') now /\ inv lim (buckets s2') now /\ sim lim (buckets s1') (buckets s2') now.
+Proof.
+  intros Hok Hi1 Hi2 Hs. destruct ev as [ip c|ip op|c]; cbn [step].
+  - apply consult_seq_sim; assumption.
+  - apply consult_seq_sim; assumption.
+  - intros C1 C2. inversion C1; inversion C2; subst. cbn [buckets].
+    split; [reflexivity|split; [apply remove_inv; exact Hi1|split; [apply remove_inv; exact Hi2|]]].
+    intros k. unfold level. destruct (key_eqb_spec k (KConn c)) as [->|Hne].
+    + rewrite !find_remove_same. reflexivity.
+    + rewrite !(find_remove_other _ _ _ Hne). apply Hs.
+Qed.
+
+Lemma run_from_sim e1 e2 lim ord : lim_ok lim ->
+  forall evs i1 i2 s1 s2 tprev, times_sorted tprev evs ->
+  inv lim (buckets s1) tprev -> inv lim (buckets s2) tprev -> sim lim (buckets s1) (buckets s2) tprev ->
+  fst (run_from e1 lim ord i1 s1 evs) = fst (run_from e2 lim ord i2 s2 evs).
+Proof.
+  intros Hok. induction evs as [|[now ev] r IH]; intros i1 i2 s1 s2 tprev Hsrt Hi1 Hi2 Hs; [reflexivity|].
+  destruct Hsrt as [Hle Hsrt]. cbn [run_from].
+  destruct (step e1 lim ord i1 s1 now ev) as [tr1 t1] eqn:E1.
+  destruct (step e2 lim ord i2 s2 now ev) as [tr2 t2] eqn:E2.
+  destruct (step_sim _ _ _ _ _ _ _ _ _ _ _ _ _ _ Hok (inv_later _ _ _ _ Hi1 Hle) (inv_later _ _ _ _ Hi2 Hle)
+              (sim_later _ _ _ _ _ Hok Hi1 Hi2 Hle Hs) E1 E2) as (-> & Hj1 & Hj2 & Hs').
+  specialize (IH (S i1) (S i2) t1 t2 now Hsrt Hj1 Hj2 Hs').
+  destruct (run_from e1 lim ord (S i1) t1 r) as [u1 v1], (run_from e2 lim ord (S i2) t2 r) as [u2 v2].
+  cbn [fst] in *. rewrite IH. reflexivity.
+Qed.
+
+(* whatever the trigger of the cleanup passes and whichever full buckets a pass reaches, the consultations and their
+   outcomes are those of the limiter without cleanup *)
+Lemma C18_cleanup_invisible_lemma e lim ord t0 evs : lim_ok lim -> times_sorted t0 evs ->
+  fst (run e lim ord t0 evs) = fst (run env_none lim ord t0 evs).
+Proof.
+  intros Hok Hs. unfold run.
+  apply (run_from_sim e env_none lim ord Hok evs O O (init lim t0) (init lim t0) t0 Hs);
+    try (apply inv_init; exact Hok). intros k. reflexivity.
+Qed.
+
+(* ================= a request that finds a token in every bucket it consults is admitted ================= *)
+Lemma admitted_cons k a tr : admitted ((k, a) :: tr) = a && admitted tr.
+Proof. reflexivity. Qed.
+
+Lemma consult_seq_keys e lim i now : forall ks st tr st',
+  consult_seq e lim i st ks now = (tr, st') -> forall k a, In (k, a) tr -> In k ks.
+Proof.
+  induction ks as [|k0 r IH]; intros st tr st' C k a Hin.
+  - cbn in C. inversion C; subst. destruct Hin.
+  - cbn [consult_seq] in C. destruct (consult e lim i st k0 now) as [a0 s1] eqn:E. destruct a0.
+    + destruct (consult_seq e lim i s1 r now) as [u v] eqn:F. inversion C; subst.
+      destruct Hin as [H|H]; [left; congruence|right; exact (IH _ _ _ F _ _ H)].
+    + inversion C; subst. destruct Hin as [H|[]]. left; congruence.
+Qed.
+
+Lemma consult_seq_inv e lim i now : lim_ok lim -> forall ks st tr st',
+  inv lim (buckets st) now -> consult_seq e lim i st ks now = (tr, st') -> inv lim (buckets st') now.
+Proof.
+  intros Hok. induction ks as [|k r IH]; intros st tr st' Hi C.
+  - cbn in C. inversion C; subst. exact Hi.
+  - cbn [consult_seq] in C. destruct (consult e lim i st k now) as [a s1] eqn:E.
+    destruct (consult_spec _ _ _ _ _ _ _ _ Hok Hi E) as (Hi1 & _). destruct a.
+    + destruct (consult_seq e lim i s1 r now) as [u v] eqn:F. inversion C; subst. exact (IH _ _ _ Hi1 F).
+    + inversion C; subst. exact Hi1.
+Qed.
+
+Lemma consult_seq_not_refused e lim i now : lim_ok lim -> forall ks st tr st',
+  inv lim (buckets st) now -> NoDup ks -> (forall k, In k ks -> 1 <= level lim (buckets st) k now) ->
+  consult_seq e lim i st ks now = (tr, st') -> admitted tr = true.
+Proof.
+  intros Hok. induction ks as [|k r IH]; intros st tr st' Hi Hnd Hlev C.
+  - cbn in C. inversion C; subst. reflexivity.
+  - cbn [consult_seq] in C. destruct (consult e lim i st k now) as [a s1] eqn:E.
+    destruct (consult_spec _ _ _ _ _ _ _ _ Hok Hi E) as (Hi1 & Hb & _ & Ho).
+    assert (Ha : a = true) by (apply Hb, Hlev; left; reflexivity). subst a.
+    destruct (consult_seq e lim i s1 r now) as [u v] eqn:F. inversion C; subst.
+    rewrite admitted_cons. cbn [andb]. inversion Hnd as [|? ? Hnin Hnd']; subst.
+    apply (IH s1 u st' Hi1 Hnd'); [|exact F]. intros k' Hin. rewrite Ho; [apply Hlev; right; exact Hin|].
+    intros ->. contradiction.
+Qed.
+
+(* ... and a refused request was refused by a bucket that held less than one token *)
+Lemma consult_seq_refused e lim i now : lim_ok lim -> forall ks st tr st',
+  inv lim (buckets st) now -> NoDup ks ->
+  consult_seq e lim i st ks now = (tr, st') -> admitted tr = false ->
+  exists k, In (k, false) tr /\ In k ks /\ level lim (buckets st) k now < 1.
+Proof.
+  intros Hok. induction ks as [|k r IH]; intros st tr st' Hi Hnd C Hadm.
+  - cbn in C. inversion C; subst. discriminate.
+  - cbn [consult_seq] in C. destruct (consult e lim i st k now) as [a s1] eqn:E.
+    destruct (consult_spec _ _ _ _ _ _ _ _ Hok Hi E) as (Hi1 & Hb & _ & Ho).
+    inversion Hnd as [|? ? Hnin Hnd']; subst. destruct a.
+    + destruct (consult_seq e lim i s1 r now) as [u v] eqn:F. inversion C; subst.
+      rewrite admitted_cons in Hadm. cbn [andb] in Hadm.
+      destruct (IH _ _ _ Hi1 Hnd' F Hadm) as (k' & H1 & H2 & H3).
+      exists k'. split; [right; exact H1|split; [right; exact H2|]].
+      rewrite <- Ho; [exact H3|]. intros ->. contradiction.
+    + inversion C; subst. exists k. split; [left; reflexivity|split; [left; reflexivity|]].
+      apply Qnot_le_lt. intros H. apply Hb in H. discriminate.
+Qed.
+
+(* a consulted bucket below one token refuses the request (whoever refuses first) *)
+Lemma consult_seq_refuses e lim i now : lim_ok lim -> forall ks st tr st' k,
+  inv lim (buckets st) now -> NoDup ks -> In k ks -> level lim (buckets st) k now < 1 ->
+  consult_seq e lim i st ks now = (tr, st') -> admitted tr = false.
+Proof.
+  intros Hok ks st tr st' k Hi Hnd Hin Hlt C.
+  destruct (admitted tr) eqn:Ea; [|reflexivity]. exfalso.
+  revert st tr st' Hi Hnd Hin Hlt C Ea. induction ks as [|k0 r IH]; intros st tr st' Hi Hnd Hin Hlt C Ea; [destruct Hin|].
+  cbn [consult_seq] in C. destruct (consult e lim i st k0 now) as [a s1] eqn:E.
+  destruct (consult_spec _ _ _ _ _ _ _ _ Hok Hi E) as (Hi1 & Hb & _ & Ho).
+  inversion Hnd as [|? ? Hnin Hnd']; subst. destruct a.
+  - destruct (consult_seq e lim i s1 r now) as [u v] eqn:F. inversion C; subst.
+    rewrite admitted_cons in Ea. cbn [andb] in Ea.
+    destruct Hin as [->|Hin].
+    + assert (H : 1 <= level lim (buckets st) k now) by (apply Hb; reflexivity). lra.
+    + apply (IH s1 u st' Hi1 Hnd' Hin); [|exact F|exact Ea]. rewrite Ho; [exact Hlt|]. intros ->. contradiction.
+  - inversion C; subst. discriminate.
+Qed.
+
+(* distinct limiters consult distinct buckets *)
+Definition limiter_of_key (k : key) : option rl_limiter :=
+  match k with KGlobal => Some RL_Global | KIP _ => Some RL_PerIP | KConn _ => Some RL_PerConn | KOp _ _ => None end.
+Lemma keys_of_limiter_inv lim ip c l k : In k (keys_of_limiter lim ip c l) -> limiter_of_key k = Some l.
+Proof.
+  destruct l; cbn.
+  - intros [<-|[]]; reflexivity.
+  - intros [<-|[]]; reflexivity.
+  - destruct (conn_on lim); [intros [<-|[]]; reflexivity|intros []].
+Qed.
+Lemma keys_of_limiter_nodup lim ip c l : NoDup (keys_of_limiter lim ip c l).
+Proof.
+  destruct l; cbn; try (constructor; [intros []|constructor]).
+  destruct (conn_on lim); constructor; [intros []|constructor].
+Qed.
+Lemma keys_of_nodup lim ord ev : NoDup ord -> NoDup (keys_of lim ord ev).
+Proof.
+  destruct ev as [ip c|ip op|c]; cbn [keys_of]; intros Hnd;
+    [|constructor; [intros []|constructor]|constructor].
+  induction ord as [|l r IH]; cbn [flat_map]; [constructor|].
+  inversion Hnd as [|? ? Hnin Hnd']; subst.
+  assert (Happ : forall (a b : list key), NoDup a -> NoDup b -> (forall x, In x a -> ~ In x b) -> NoDup (a ++ b)).
+  { induction a as [|x a IHa]; intros b Ha Hb Hd; [exact Hb|]. cbn. inversion Ha; subst.
+    constructor.
+    - intros Hin. apply in_app_or in Hin. destruct Hin as [Hin|Hin]; [contradiction|]. apply (Hd x); [left; reflexivity|exact Hin].
+    - apply IHa; [assumption|assumption|]. intros y Hy. apply Hd. right. exact Hy. }
+  apply Happ; [apply keys_of_limiter_nodup|apply IH; exact Hnd'|].
+  intros x Hx Hin. apply in_flat_map in Hin. destruct Hin as (l' & Hl' & Hx').
+  apply keys_of_limiter_inv in Hx. apply keys_of_limiter_inv in Hx'. assert (l = l') by congruence. subst. contradiction.
+Qed.
+
+Lemma C18_not_refused_lemma e lim ord i st now ev : lim_ok lim -> NoDup ord ->
+  inv lim (buckets st) now ->
+  (forall k, In k (keys_of lim ord ev) -> 1 <= level lim (buckets st) k now) ->
+  admitted (fst (step e lim ord i st now ev)) = true.
+Proof.
+  intros Hok Hnd Hi Hlev. destruct (step e lim ord i st now ev) as [tr st'] eqn:E. cbn [fst].
+  destruct ev as [ip c|ip op|c]; cbn [step] in E.
+  - exact (consult_seq_not_refused _ _ _ _ Hok _ _ _ _ Hi (keys_of_nodup lim ord (Req ip c) Hnd) Hlev E).
+  - exact (consult_seq_not_refused _ _ _ _ Hok _ _ _ _ Hi (keys_of_nodup lim ord (Op ip op) Hnd) Hlev E).
+  - inversion E; subst. reflexivity.
+Qed.
+
+Lemma C18_refused_lemma e lim ord i st now ev : lim_ok lim -> NoDup ord ->
+  inv lim (buckets st) now ->
+  admitted (fst (step e lim ord i st now ev)) = false ->
+  exists k, In k (keys_of lim ord ev) /\ level lim (buckets st) k now < 1.
+Proof.
+  intros Hok Hnd Hi. destruct (step e lim ord i st now ev) as [tr st'] eqn:E. cbn [fst]. intros Hadm.
+  destruct ev as [ip c|ip op|c]; cbn [step] in E.
+  - destruct (consult_seq_refused _ _ _ _ Hok _ _ _ _ Hi (keys_of_nodup lim ord (Req ip c) Hnd) E Hadm) as (k & _ & H2 & H3).
+    exists k. split; assumption.
+  - destruct (consult_seq_refused _ _ _ _ Hok _ _ _ _ Hi (keys_of_nodup lim ord (Op ip op) Hnd) E Hadm) as (k & _ & H2 & H3).
+    exists k. split; assumption.
+  - inversion E; subst. discriminate.
+Qed.
+
+(* ================= the bound for every limiter of the composite (ledger invariant) ================= *)
+Lemma lfind_lremove_other k k' g : k' <> k -> lfind k' (lremove k g) = lfind k' g.
+Proof.
+  intros Hne. induction g as [|[k1 v1] r IH]; cbn; [reflexivity|].
+  destruct (key_eqb_spec k k1) as [->|Hne1]; cbn.
+  - rewrite (key_eqb_neq _ _ Hne). exact IH.
+  - destruct (key_eqb k' k1); [reflexivity|exact IH].
+Qed.
+Lemma lfind_lremove_same k g : lfind k (lremove k g) = None.
+Proof.
+  induction g as [|[k1 v1] r IH]; cbn; [reflexivity|].
+  destruct (key_eqb_spec k k1) as [->|Hne1]; cbn; [exact IH|]. rewrite (key_eqb_neq _ _ Hne1). exact IH.
+Qed.
+Lemma lfind_lset_same k v g : lfind k (lset k v g) = Some v.
+Proof. unfold lset. cbn. rewrite key_eqb_refl. reflexivity. Qed.
+Lemma lfind_lset_other k k' v g : k' <> k -> lfind k' (lset k v g) = lfind k' g.
+Proof. intros Hne. unfold lset. cbn. rewrite (key_eqb_neq _ _ Hne). apply lfind_lremove_other. exact Hne. Qed.
+
+(* admitted-since-creation + current level <= burst + rate * (time since creation); no account => no bucket *)
+Definition J (lim : limits) (g : ledger) (m : list (key * tb)) (now : Q) : Prop :=
+  forall k,
+    match lfind k g with
+    | Some en => inject_Z (count en) + level lim m k now <= burst_of lim k + rate_of lim k * (now - created en)
+                 /\ created en <= now
+    | None => find k m = None
+    end.
+
+Lemma J_later lim g m now now' : lim_ok lim -> inv lim m now -> now <= now' -> J lim g m now -> J lim g m now'.
+Proof.
+  intros Hok Hi Hle HJ k. specialize (HJ k). destruct (lfind k g) as [en|]; [|exact HJ].
+  destruct HJ as [Hb Hc]. split; [|lra].
+  pose proof (level_later_le _ _ _ _ k Hok Hi Hle) as Hl. lra.
+Qed.
+
+Lemma find_filter_none (p : key * tb -> bool) k m : find k m = None -> find k (filter p m) = None.
+Proof.
+  intros H. apply notin_find_none. intros Hin. apply (find_none_notin _ _ H). exact (in_keys_filter _ _ Hin).
+Qed.
+Lemma consult_other_none e lim i st k now a st' k' :
+  k' <> k -> consult e lim i st k now = (a, st') -> find k' (buckets st) = None -> find k' (buckets st') = None.
+Proof.
+  intros Hne. unfold consult. destruct (allow _ now) as [a0 b']. intros H Hf; inversion H; subst. cbn [buckets].
+  rewrite (find_upd_other _ _ _ _ Hne). unfold pre_cleanup.
+  destruct k as [|ip|c|ip op]; try exact Hf.
+  - destruct (trig e i (KIP ip) now (lc_ip st)); [|exact Hf]. cbn [buckets]. apply find_filter_none. exact Hf.
+  - destruct (trig e i (KOp ip op) now (lc_op st)); [|exact Hf]. cbn [buckets]. apply find_filter_none. exact Hf.
+Qed.
+
+Lemma consult_J e lim i st k now a st' g (final fin : bool) :
+  lim_ok lim -> inv lim (buckets st) now -> J lim g (buckets st) now ->
+  consult e lim i st k now = (a, st') ->
+  ((if final then fin else a) = true -> a = true) ->
+  J lim (ledger_consult final fin now g (k, a)) (buckets st') now.
+Proof.
+  intros Hok Hi HJ C Hw.
+  destruct (consult_spec _ _ _ _ _ _ _ _ Hok Hi C) as (Hi' & Hb & Hk & Ho).
+  intros k'. unfold ledger_consult. cbn [fst snd].
+  destruct (key_eqb_spec k' k) as [->|Hne].
+  - rewrite lfind_lset_same. cbn [created count]. specialize (HJ k).
+    assert (Hcoef : inject_Z (if (if final then fin else a) then 1 else 0) <= (if a then 1 else 0)).
+    { destruct (if final then fin else a) eqn:Ew.
+      - rewrite (Hw eq_refl). change (inject_Z 1) with 1. lra.
+      - change (inject_Z 0) with 0. destruct a; lra. }
+    destruct (lfind k g) as [en|] eqn:El.
+    + destruct HJ as [Hbd Hc]. split; [|exact Hc]. rewrite Hk, inject_Z_plus. lra.
+    + rewrite (level_absent _ _ _ _ HJ) in Hk. cbn [created count]. split; [|lra].
+      rewrite Hk, inject_Z_plus. change (inject_Z 0) with 0. lra.
+  - rewrite (lfind_lset_other _ _ _ _ Hne). specialize (HJ k'). destruct (lfind k' g) as [en|].
+    + rewrite (Ho _ Hne). exact HJ.
+    + exact (consult_other_none _ _ _ _ _ _ _ _ _ Hne C HJ).
+Qed.
+
+Lemma consult_seq_J e lim i now final fin : lim_ok lim -> forall ks st tr st' g,
+  inv lim (buckets st) now -> J lim g (buckets st) now ->
+  consult_seq e lim i st ks now = (tr, st') -> (fin = true -> admitted tr = true) ->
+  J lim (fold_left (ledger_consult final fin now) tr g) (buckets st') now.
+Proof.
+  intros Hok. induction ks as [|k r IH]; intros st tr st' g Hi HJ C Hfin.
+  - cbn in C. inversion C; subst. exact HJ.
+  - cbn [consult_seq] in C. destruct (consult e lim i st k now) as [a s1] eqn:E.
+    destruct (consult_spec _ _ _ _ _ _ _ _ Hok Hi E) as (Hi1 & _). destruct a.
+    + destruct (consult_seq e lim i s1 r now) as [u v] eqn:F. inversion C; subst. cbn [fold_left].
+      apply (IH s1 u st' _ Hi1); [|exact F|].
+      * apply (consult_J _ _ _ _ _ _ _ _ _ _ _ Hok Hi HJ E). intros _. reflexivity.
+      * intros H. specialize (Hfin H). rewrite admitted_cons in Hfin. exact Hfin.
+    + inversion C; subst. cbn [fold_left].
+      apply (consult_J _ _ _ _ _ _ _ _ _ _ _ Hok Hi HJ E).
+      destruct final; [|trivial]. intros H. specialize (Hfin H). discriminate.
+Qed.
+
+Lemma step_J e lim ord i st now ev tr st' g final : lim_ok lim ->
+  inv lim (buckets st) now -> J lim g (buckets st) now -> step e lim ord i st now ev = (tr, st') ->
+  J lim (ledger_step final now ev tr g) (buckets st') now.
+Proof.
+  intros Hok Hi HJ. destruct ev as [ip c|ip op|c]; cbn [step ledger_step]; intros C.
+  - apply (consult_seq_J _ _ _ _ _ _ Hok _ _ _ _ _ Hi HJ C). trivial.
+  - apply (consult_seq_J _ _ _ _ _ _ Hok _ _ _ _ _ Hi HJ C). trivial.
+  - inversion C; subst. cbn [buckets]. intros k. destruct (key_eqb_spec k (KConn c)) as [->|Hne].
+    + rewrite lfind_lremove_same. apply find_remove_same.
+    + rewrite (lfind_lremove_other _ _ _ Hne). specialize (HJ k). unfold level in *.
+      rewrite (find_remove_other _ _ _ Hne). exact HJ.
+Qed.
+
+Lemma step_inv e lim ord i st now ev tr st' : lim_ok lim ->
+  inv lim (buckets st) now -> step e lim ord i st now ev = (tr, st') -> inv lim (buckets st') now.
+Proof.
+  intros Hok Hi. destruct ev as [ip c|ip op|c]; cbn [step]; intros C.
+  - exact (consult_seq_inv _ _ _ _ Hok _ _ _ _ Hi C).
+  - exact (consult_seq_inv _ _ _ _ Hok _ _ _ _ Hi C).
+  - inversion C; subst. apply remove_inv. exact Hi.
+Qed.
+
+Lemma times_sorted_end t0 evs : times_sorted t0 evs -> t0 <= end_time t0 evs.
+Proof.
+  revert t0. induction evs as [|[t ev] r IH]; intros t0 H; cbn; [lra|].
+  destruct H as [H1 H2]. specialize (IH _ H2). lra.
+Qed.
+
+Lemma run_from_J e lim ord final : lim_ok lim -> forall evs i st g tprev,
+  times_sorted tprev evs -> inv lim (buckets st) tprev -> J lim g (buckets st) tprev ->
+  J lim (ledger_run final evs (fst (run_from e lim ord i st evs)) g)
+        (buckets (snd (run_from e lim ord i st evs))) (end_time tprev evs) /\
+  inv lim (buckets (snd (run_from e lim ord i st evs))) (end_time tprev evs).
+Proof.
+  intros Hok. induction evs as [|[now ev] r IH]; intros i st g tprev Hs Hi HJ.
+  - cbn. split; assumption.
+  - destruct Hs as [Hle Hs]. cbn [run_from end_time].
+    destruct (step e lim ord i st now ev) as [tr s1] eqn:E.
+    pose proof (inv_later _ _ _ _ Hi Hle) as Hi0.
+    pose proof (J_later _ _ _ _ _ Hok Hi Hle HJ) as HJ0.
+    pose proof (step_inv _ _ _ _ _ _ _ _ _ Hok Hi0 E) as Hi1.
+    pose proof (step_J _ _ _ _ _ _ _ _ _ _ final Hok Hi0 HJ0 E) as HJ1.
+    specialize (IH (S i) s1 _ now Hs Hi1 HJ1).
+    destruct (run_from e lim ord (S i) s1 r) as [trs s2]. cbn [fst snd ledger_run] in *. exact IH.
+Qed.
+
+Lemma J_init lim t0 : lim_ok lim -> J lim (ledger_init t0) (buckets (init lim t0)) t0.
+Proof.
+  intros Hok k. unfold ledger_init, init. cbn [lfind buckets].
+  destruct (key_eqb_spec k KGlobal) as [->|Hne].
+  - cbn [created count]. split; [|lra]. unfold level. cbn [find]. rewrite key_eqb_refl.
+    unfold tokens_at. rewrite refilled_mk. change (inject_Z 0) with 0. lra.
+  - cbn [find]. rewrite (key_eqb_neq _ _ Hne). reflexivity.
+Qed.
+
+(* C18 for every limiter of a RateLimiter: requests admitted since the limiter was created <= burst + rate * elapsed,
+   with cleanup passes triggered at will *)
+Lemma C18_bound_limiters_lemma e lim ord t0 evs final : lim_ok lim -> times_sorted t0 evs ->
+  forall k en, lfind k (ledger_run final evs (fst (run e lim ord t0 evs)) (ledger_init t0)) = Some en ->
+  inject_Z (count en) <= burst_of lim k + rate_of lim k * (end_time t0 evs - created en)
+  /\ t0 <= created en <= end_time t0 evs.
+Proof.
+  intros Hok Hs k en Hf. unfold run in Hf.
+  destruct (run_from_J e lim ord final Hok evs O (init lim t0) (ledger_init t0) t0 Hs (inv_init _ _ Hok) (J_init _ _ Hok))
+    as [HJ Hi].
+  specialize (HJ k). rewrite Hf in HJ. destruct HJ as [Hb Hc].
+  pose proof (level_nonneg lim _ _ k (end_time t0 evs) Hok Hi (Qle_refl _)) as Hn.
+  split; [lra|]. split; [|exact Hc].
+  (* creation times never precede t0 *)
+  clear Hb Hn Hc Hi.
+  assert (Hgen : forall evs i st g tprev, times_sorted tprev evs ->
+            (forall k en, lfind k g = Some en -> t0 <= created en) -> t0 <= tprev ->
+            forall k en, lfind k (ledger_run final evs (fst (run_from e lim ord i st evs)) g) = Some en -> t0 <= created en).
+  { clear. induction evs as [|[now ev] r IH]; intros i st g tprev Hs Hg Ht k en Hf; [exact (Hg _ _ Hf)|].
+    destruct Hs as [Hle Hs]. cbn [run_from] in Hf. destruct (step e lim ord i st now ev) as [tr s1].
+    destruct (run_from e lim ord (S i) s1 r) as [trs s2] eqn:Er. cbn [fst ledger_run] in Hf.
+    assert (Hrw : trs = fst (run_from e lim ord (S i) s1 r)) by (rewrite Er; reflexivity). rewrite Hrw in Hf.
+    apply (IH (S i) s1 (ledger_step final now ev tr g) now Hs) with (k := k); [|lra|exact Hf].
+    clear Hf IH. intros k1 en1. unfold ledger_step. destruct ev as [ip c|ip op|c].
+    - generalize (admitted tr). intros fin. revert g Hg. induction tr as [|[k2 a2] tr IHt]; intros g Hg; cbn [fold_left]; [apply Hg|].
+      apply IHt. intros k3 en3. unfold ledger_consult. cbn [fst snd].
+      destruct (key_eqb_spec k3 k2) as [->|Hne].
+      + rewrite lfind_lset_same. intros H; inversion H; subst; cbn [created].
+        destruct (lfind k2 g) as [en0|] eqn:E0; [exact (Hg _ _ E0)|cbn; lra].
+      + rewrite (lfind_lset_other _ _ _ _ Hne). apply Hg.
+    - generalize (admitted tr). intros fin. revert g Hg. induction tr as [|[k2 a2] tr IHt]; intros g Hg; cbn [fold_left]; [apply Hg|].
+      apply IHt. intros k3 en3. unfold ledger_consult. cbn [fst snd].
+      destruct (key_eqb_spec k3 k2) as [->|Hne].
+      + rewrite lfind_lset_same. intros H; inversion H; subst; cbn [created].
+        destruct (lfind k2 g) as [en0|] eqn:E0; [exact (Hg _ _ E0)|cbn; lra].
+      + rewrite (lfind_lset_other _ _ _ _ Hne). apply Hg.
+    - destruct (key_eqb_spec k1 (KConn c)) as [->|Hne].
+      + rewrite lfind_lremove_same. discriminate.
+      + rewrite (lfind_lremove_other _ _ _ Hne). apply Hg. }
+  apply (Hgen evs O (init lim t0) (ledger_init t0) t0 Hs) with (k := k); [|lra|exact Hf].
+  intros k1 en1. unfold ledger_init. cbn [lfind]. destruct (key_eqb k1 KGlobal); [|discriminate].
+  intros H; inversion H; subst; cbn. lra.
+Qed.
+
+(* ================= C19: the global bucket is charged by admitted requests only ================= *)
+Lemma global_last_spec ord : global_last ord = true -> exists pre, ord = pre ++ [RL_Global] /\ ~ In RL_Global pre.
+Proof.
+  unfold global_last. destruct (rev ord) as [|l r] eqn:E; [discriminate|]. destruct l; try discriminate.
+  intros H. exists (rev r). split.
+  - rewrite <- (rev_involutive ord), E. reflexivity.
+  - intros Hin. apply in_rev in Hin. apply negb_true_iff in H.
+    assert (Hx : existsb is_global r = true) by (apply existsb_exists; exists RL_Global; split; [exact Hin|reflexivity]).
+    congruence.
+Qed.
+
+Lemma keys_of_req_global_last lim ord ip c : global_last ord = true ->
+  exists pk, keys_of lim ord (Req ip c) = pk ++ [KGlobal] /\ ~ In KGlobal pk.
+Proof.
+  intros H. destruct (global_last_spec _ H) as (pre & -> & Hnin).
+  exists (flat_map (keys_of_limiter lim ip c) pre). split.
+  - cbn [keys_of]. rewrite flat_map_app. reflexivity.
+  - intros Hin. apply in_flat_map in Hin. destruct Hin as (l & Hl & Hk).
+    apply keys_of_limiter_inv in Hk. cbn in Hk. inversion Hk; subst. contradiction.
+Qed.
+
+Lemma admitted_app a b : admitted (a ++ b) = admitted a && admitted b.
+Proof. unfold admitted. apply forallb_app. Qed.
+
+Lemma consult_seq_app e lim i now : forall ks1 ks2 st,
+  consult_seq e lim i st (ks1 ++ ks2) now =
+  let '(tr1, st1) := consult_seq e lim i st ks1 now in
+  if admitted tr1 then let '(tr2, st2) := consult_seq e lim i st1 ks2 now in (tr1 ++ tr2, st2)
+  else (tr1, st1).
+Proof.
+  induction ks1 as [|k r IH]; intros ks2 st.
+  - cbn. destruct (consult_seq e lim i st ks2 now); reflexivity.
+  - cbn [app consult_seq]. destruct (consult e lim i st k now) as [a s1]. destruct a.
+    + rewrite IH. destruct (consult_seq e lim i s1 r now) as [tr1 st1]. rewrite admitted_cons. cbn [andb].
+      destruct (admitted tr1); [|reflexivity]. destruct (consult_seq e lim i st1 ks2 now). reflexivity.
+    + reflexivity.
+Qed.
+
+Lemma consult_seq_global_untouched e lim i now : forall ks st tr st',
+  ~ In KGlobal ks -> consult_seq e lim i st ks now = (tr, st') ->
+  find KGlobal (buckets st') = find KGlobal (buckets st).
+Proof.
+  induction ks as [|k r IH]; intros st tr st' Hnin C.
+  - cbn in C. inversion C; subst. reflexivity.
+  - cbn [consult_seq] in C. destruct (consult e lim i st k now) as [a s1] eqn:E.
+    assert (Hk : k <> KGlobal) by (intros ->; apply Hnin; left; reflexivity).
+    pose proof (consult_global_untouched _ _ _ _ _ _ _ _ Hk E) as H1. destruct a.
+    + destruct (consult_seq e lim i s1 r now) as [u v] eqn:F. inversion C; subst.
+      rewrite (IH s1 u st'); [exact H1| |exact F]. intros Hin. apply Hnin. right. exact Hin.
+    + inversion C; subst. exact H1.
+Qed.
+
+(* what an AllowRequest does to the global bucket when the global limiter is consulted last:
+   it costs one token exactly when the request is admitted, and nothing at all when another limiter refused *)
+Lemma step_req_global e lim ord i st now ip c tr st' : lim_ok lim -> global_last ord = true ->
+  inv lim (buckets st) now -> step e lim ord i st now (Req ip c) = (tr, st') ->
+  (admitted tr = true -> 1 <= level lim (buckets st) KGlobal now) /\
+  level lim (buckets st') KGlobal now == level lim (buckets st) KGlobal now - (if admitted tr then 1 else 0) /\
+  ((exists k, In (k, false) tr /\ k <> KGlobal) -> find KGlobal (buckets st') = find KGlobal (buckets st)) /\
+  (admitted tr = false -> level lim (buckets st) KGlobal now >= 1 -> find KGlobal (buckets st') = find KGlobal (buckets st)).
+Proof.
+  intros Hok Hgl Hi. cbn [step]. destruct (keys_of_req_global_last lim ord ip c Hgl) as (pk & -> & Hnin).
+  rewrite consult_seq_app. destruct (consult_seq e lim i st pk now) as [tr1 s1] eqn:F1.
+  pose proof (consult_seq_global_untouched _ _ _ _ _ _ _ _ Hnin F1) as Hu.
+  pose proof (consult_seq_inv _ _ _ _ Hok _ _ _ _ Hi F1) as Hi1.
+  assert (HL : level lim (buckets s1) KGlobal now = level lim (buckets st) KGlobal now) by (unfold level; rewrite Hu; reflexivity).
+  destruct (admitted tr1) eqn:Ea1.
+  - cbn [consult_seq]. destruct (consult e lim i s1 KGlobal now) as [a s2] eqn:E2.
+    destruct (consult_spec _ _ _ _ _ _ _ _ Hok Hi1 E2) as (_ & Hb & Hk & _).
+    assert (Htr : forall (x : list (key * bool) * rl), x = (if a then ([(KGlobal, true)], s2) else ([(KGlobal, false)], s2)) ->
+                   x = ([(KGlobal, a)], s2)) by (intros x ->; destruct a; reflexivity).
+    destruct (if a then (let '(tr0, st2) := ([], s2) in ((KGlobal, true) :: tr0, st2)) else ([(KGlobal, false)], s2))
+      as [tr2 s3] eqn:E3.
+    assert (E3' : (tr2, s3) = ([(KGlobal, a)], s2)) by (rewrite <- E3; destruct a; reflexivity).
+    inversion E3'; subst tr2 s3. clear E3 E3' Htr.
+    intros H; inversion H; subst tr st'. rewrite admitted_app, Ea1. cbn [andb admitted forallb snd].
+    rewrite andb_true_r. rewrite HL in *.
+    split; [intros ->; apply Hb; reflexivity|]. split; [exact Hk|]. split.
+    + intros (k & Hin & Hne). exfalso. apply in_app_or in Hin. destruct Hin as [Hin|[Hin|[]]].
+      * unfold admitted in Ea1. rewrite forallb_forall in Ea1. specialize (Ea1 _ Hin). discriminate.
+      * inversion Hin; subst. contradiction.
+    + intros -> Hge. exfalso. assert (false = true) by (apply Hb; lra). discriminate.
+  - intros H; inversion H; subst tr st'. rewrite Ea1. rewrite HL.
+    split; [discriminate|]. split; [lra|]. split; intros; exact Hu.
+Qed.
+
+Lemma step_other_global e lim ord i st now ev tr st' :
+  (forall ip c, ev <> Req ip c) -> step e lim ord i st now ev = (tr, st') ->
+  find KGlobal (buckets st') = find KGlobal (buckets st).
+Proof.
+  intros Hnr. destruct ev as [ip c|ip op|c]; cbn [step keys_of].
+  - exfalso. exact (Hnr ip c eq_refl).
+  - apply consult_seq_global_untouched. intros [H|[]]. discriminate.
+  - intros H; inversion H; subst. cbn [buckets]. apply find_remove_other. discriminate.
+Qed.
+
+(* the reference global bucket: rate, burst of the global limiter, last touched in the past *)
+Definition Gok (lim : limits) (G : tb) (t : Q) : Prop :=
+  rate G = rate_of lim KGlobal /\ maxT G = burst_of lim KGlobal /\ last G <= t /\ 0 <= tokens G.
+Lemma Gok_wf lim G t : lim_ok lim -> Gok lim G t -> wf G.
+Proof. intros Hok (Hr & Hm & _ & Ht). destruct (Hok KGlobal). unfold wf. rewrite Hr, Hm. repeat split; assumption. Qed.
+Lemma Gok_later lim G t t' : Gok lim G t -> t <= t' -> Gok lim G t'.
+Proof. intros (Hr & Hm & Hl & Ht) Hle. repeat split; try assumption. lra. Qed.
+
+Lemma track_later lim m G t t' : lim_ok lim -> inv lim m t -> Gok lim G t -> t <= t' ->
+  level lim m KGlobal t == refilled G t -> level lim m KGlobal t' == refilled G t'.
+Proof.
+  intros Hok Hi HG Hle Heq. destruct HG as (Hr & Hm & Hl & Ht). destruct (Hok KGlobal) as [Hr0 _].
+  rewrite (level_later _ _ _ _ KGlobal Hok Hi Hle).
+  rewrite (refilled_later G t t'); [|rewrite Hr; exact Hr0|exact Hle].
+  rewrite Hr, Hm. apply cap_compat. rewrite Heq. reflexivity.
+Qed.
+
+Lemma run_from_tracks e lim ord : lim_ok lim -> global_last ord = true -> forall evs i st G tprev,
+  times_sorted tprev evs -> inv lim (buckets st) tprev -> Gok lim G tprev ->
+  level lim (buckets st) KGlobal tprev == refilled G tprev ->
+  let trs := fst (run_from e lim ord i st evs) in
+  let st' := snd (run_from e lim ord i st evs) in
+  let r := TokenBucket.run G (admitted_req_times evs trs) in
+  forallb (fun x : bool => x) (fst r) = true /\ Gok lim (snd r) (end_time tprev evs) /\
+  inv lim (buckets st') (end_time tprev evs) /\
+  level lim (buckets st') KGlobal (end_time tprev evs) == refilled (snd r) (end_time tprev evs).
+Proof.
+  intros Hok Hgl. induction evs as [|[now ev] r IH]; intros i st G tprev Hs Hi HG Heq.
+  - cbn. split; [reflexivity|split; [exact HG|split; [exact Hi|exact Heq]]].
+  - destruct Hs as [Hle Hs]. cbn [run_from end_time].
+    destruct (step e lim ord i st now ev) as [tr s1] eqn:E.
+    pose proof (inv_later _ _ _ _ Hi Hle) as Hi0.
+    pose proof (Gok_later _ _ _ _ HG Hle) as HG0.
+    pose proof (track_later _ _ _ _ _ Hok Hi HG Hle Heq) as Heq0.
+    pose proof (step_inv _ _ _ _ _ _ _ _ _ Hok Hi0 E) as Hi1.
+    assert (Hother : (forall ip c, ev <> Req ip c) ->
+              level lim (buckets s1) KGlobal now == refilled G now).
+    { intros Hnr. rewrite <- Heq0. unfold level. rewrite (step_other_global _ _ _ _ _ _ _ _ _ Hnr E). reflexivity. }
+    destruct ev as [ip c|ip op|c].
+    + destruct (step_req_global _ _ _ _ _ _ _ _ _ _ Hok Hgl Hi0 E) as (Hadm & Hlev & _).
+      destruct (admitted tr) eqn:Ea.
+      * specialize (IH (S i) s1).
+        destruct (run_from e lim ord (S i) s1 r) as [trs s2] eqn:Er. cbn [fst snd admitted_req_times]. rewrite Ea.
+        cbn [TokenBucket.run]. destruct (allow G now) as [a G1] eqn:EG.
+        destruct (allow_spec _ _ _ _ EG) as (Hm1 & Hr1 & Hl1 & Hc).
+        pose proof (allow_wf _ _ _ _ EG (Gok_wf _ _ _ Hok HG0) (proj1 (proj2 (proj2 HG0)))) as Hwf1.
+        pose proof (allow_level _ _ _ _ EG (Gok_wf _ _ _ Hok HG0) (proj1 (proj2 (proj2 HG0)))) as Hlv1.
+        assert (Ha : a = true).
+        { destruct Hc as [(-> & _)|(-> & Hlt & _)]; [reflexivity|]. specialize (Hadm eq_refl). lra. }
+        subst a.
+        assert (HG1 : Gok lim G1 now).
+        { destruct HG0 as (Hr0 & Hm0 & _ & _). unfold Gok. rewrite Hm1, Hr1, Hl1. repeat split; try assumption; [lra|apply Hwf1]. }
+        assert (Heq1 : level lim (buckets s1) KGlobal now == refilled G1 now) by (rewrite Hlev, Hlv1, Heq0; reflexivity).
+        specialize (IH G1 now Hs Hi1 HG1 Heq1). cbn [fst snd] in IH.
+        destruct (TokenBucket.run G1 (admitted_req_times r trs)) as [ds G2]. cbn [fst snd forallb] in *. exact IH.
+      * specialize (IH (S i) s1).
+        destruct (run_from e lim ord (S i) s1 r) as [trs s2] eqn:Er. cbn [fst snd admitted_req_times]. rewrite Ea.
+        assert (Heq1 : level lim (buckets s1) KGlobal now == refilled G now) by (rewrite Hlev, Heq0; lra).
+        specialize (IH G now Hs Hi1 HG0 Heq1). cbn [fst snd] in IH. exact IH.
+    + assert (Heq1 : level lim (buckets s1) KGlobal now == refilled G now) by (apply Hother; discriminate).
+      specialize (IH (S i) s1 G now Hs Hi1 HG0 Heq1).
+      destruct (run_from e lim ord (S i) s1 r) as [trs s2] eqn:Er. cbn [fst snd admitted_req_times] in *. exact IH.
+    + assert (Heq1 : level lim (buckets s1) KGlobal now == refilled G now) by (apply Hother; discriminate).
+      specialize (IH (S i) s1 G now Hs Hi1 HG0 Heq1).
+      destruct (run_from e lim ord (S i) s1 r) as [trs s2] eqn:Er. cbn [fst snd admitted_req_times] in *. exact IH.
+Qed.
+
+(* the global bucket after any history = a stand-alone bucket charged with the admitted requests only,
+   and that stand-alone bucket never refused one of them *)
+Lemma C19_global_tracks_lemma e lim ord t0 evs now : lim_ok lim -> global_last ord = true ->
+  times_sorted t0 evs -> end_time t0 evs <= now ->
+  let trs := fst (run e lim ord t0 evs) in
+  let st := snd (run e lim ord t0 evs) in
+  let r := TokenBucket.run (mk (rate_of lim KGlobal) (burst_of lim KGlobal) t0) (admitted_req_times evs trs) in
+  forallb (fun x : bool => x) (fst r) = true /\
+  level lim (buckets st) KGlobal now == tokens_at (snd r) now /\
+  inv lim (buckets st) now.
+Proof.
+  intros Hok Hgl Hs Hle. unfold run.
+  assert (HG : Gok lim (mk (rate_of lim KGlobal) (burst_of lim KGlobal) t0) t0).
+  { destruct (Hok KGlobal). unfold Gok; cbn. repeat split; try reflexivity; lra. }
+  assert (Heq : level lim (buckets (init lim t0)) KGlobal t0 == refilled (mk (rate_of lim KGlobal) (burst_of lim KGlobal) t0) t0).
+  { unfold level, init. cbn [buckets find]. rewrite key_eqb_refl. reflexivity. }
+  destruct (run_from_tracks e lim ord Hok Hgl evs O (init lim t0) _ t0 Hs (inv_init _ _ Hok) HG Heq) as (H1 & H2 & H3 & H4).
+  split; [exact H1|]. split; [|exact (inv_later _ _ _ _ H3 Hle)].
+  unfold tokens_at. exact (track_later _ _ _ _ _ Hok H3 H2 Hle H4).
+Qed.
+
+(* a request refused by a limiter other than the global one leaves the global bucket as it was *)
+Lemma C19_no_consume_lemma e lim ord i st now ip c : global_last ord = true ->
+  let tr := fst (step e lim ord i st now (Req ip c)) in
+  let st' := snd (step e lim ord i st now (Req ip c)) in
+  (exists k, In (k, false) tr /\ k <> KGlobal) ->
+  find KGlobal (buckets st') = find KGlobal (buckets st) /\
+  forall t, level lim (buckets st') KGlobal t = level lim (buckets st) KGlobal t.
+Proof.
+  intros Hgl. cbn zeta. destruct (step e lim ord i st now (Req ip c)) as [tr st'] eqn:E. cbn [fst snd].
+  intros (k & Hin & Hne).
+  assert (Hf : find KGlobal (buckets st') = find KGlobal (buckets st)).
+  { cbn [step] in E. destruct (keys_of_req_global_last lim ord ip c Hgl) as (pk & Hk & Hnin). rewrite Hk in E.
+    rewrite consult_seq_app in E. destruct (consult_seq e lim i st pk now) as [tr1 s1] eqn:F1.
+    pose proof (consult_seq_global_untouched _ _ _ _ _ _ _ _ Hnin F1) as Hu.
+    destruct (admitted tr1) eqn:Ea1.
+    - exfalso. destruct (consult_seq e lim i s1 [KGlobal] now) as [tr2 s2] eqn:F2. inversion E; subst tr st'.
+      apply in_app_or in Hin. destruct Hin as [Hin|Hin].
+      + unfold admitted in Ea1. rewrite forallb_forall in Ea1. specialize (Ea1 _ Hin). discriminate.
+      + apply (consult_seq_keys _ _ _ _ _ _ _ _ F2) in Hin. destruct Hin as [H|[]]. congruence.
+    - inversion E; subst. exact Hu. }
+  split; [exact Hf|]. intros t. unfold level. rewrite Hf. reflexivity.
+Qed.
+
+(* a request whose own bucket is short of a token is refused without touching the global bucket *)
+Lemma C19_own_limit_lemma e lim ord i st now ip c k : lim_ok lim -> global_last ord = true -> NoDup ord ->
+  inv lim (buckets st) now ->
+  In k (keys_of lim ord (Req ip c)) -> k <> KGlobal -> level lim (buckets st) k now < 1 ->
+  admitted (fst (step e lim ord i st now (Req ip c))) = false /\
+  find KGlobal (buckets (snd (step e lim ord i st now (Req ip c)))) = find KGlobal (buckets st).
+Proof.
+  intros Hok Hgl Hnd Hi Hin Hne Hlt.
+  pose proof (keys_of_nodup lim ord (Req ip c) Hnd) as Hndk.
+  destruct (step e lim ord i st now (Req ip c)) as [tr st'] eqn:E. cbn [fst snd]. cbn [step] in E.
+  pose proof (consult_seq_refuses _ _ _ _ Hok _ _ _ _ _ Hi Hndk Hin Hlt E) as Hadm.
+  split; [exact Hadm|].
+  destruct (consult_seq_refused _ _ _ _ Hok _ _ _ _ Hi Hndk E Hadm) as (k' & Hin' & Hk' & Hlt').
+  (* the refusing bucket is not the global one: k comes before it and already refuses *)
+  destruct (keys_of_req_global_last lim ord ip c Hgl) as (pk & Hk & Hnin). rewrite Hk in *.
+  rewrite consult_seq_app in E. destruct (consult_seq e lim i st pk now) as [tr1 s1] eqn:F1.
+  pose proof (consult_seq_global_untouched _ _ _ _ _ _ _ _ Hnin F1) as Hu.
+  assert (Hkpk : In k pk). { apply in_app_or in Hin. destruct Hin as [H|[H|[]]]; [exact H|congruence]. }
+  assert (Hndpk : NoDup pk).
+  { clear - Hndk. induction pk as [|x pk IHp]; [constructor|]. cbn in Hndk. inversion Hndk as [|? ? Hx Hr]; subst.
+    constructor; [|exact (IHp Hr)]. intros Hin. apply Hx. apply in_or_app. left. exact Hin. }
+  rewrite (consult_seq_refuses _ _ _ _ Hok _ _ _ _ _ Hi Hndpk Hkpk Hlt F1) in E. inversion E; subst. exact Hu.
+Qed.
+
+(* C19 isolation: after any history, a request whose per-IP and per-connection buckets hold a token is admitted
+   whenever the stand-alone global bucket charged with the ADMITTED requests only still holds a token *)
+Lemma C19_isolation_lemma e lim ord t0 evs i now ip c : lim_ok lim -> global_last ord = true -> NoDup ord ->
+  times_sorted t0 evs -> end_time t0 evs <= now ->
+  let trs := fst (run e lim ord t0 evs) in
+  let st := snd (run e lim ord t0 evs) in
+  let G := snd (TokenBucket.run (mk (rate_of lim KGlobal) (burst_of lim KGlobal) t0) (admitted_req_times evs trs)) in
+  1 <= level lim (buckets st) (KIP ip) now ->
+  (conn_on lim = true -> 1 <= level lim (buckets st) (KConn c) now) ->
+  1 <= tokens_at G now ->
+  admitted (fst (step e lim ord i st now (Req ip c))) = true.
+Proof.
+  intros Hok Hgl Hnd Hs Hle. cbn zeta. intros Hip Hconn HG.
+  destruct (C19_global_tracks_lemma e lim ord t0 evs now Hok Hgl Hs Hle) as (_ & Htr & Hi).
+  apply (C18_not_refused_lemma e lim ord i _ now (Req ip c) Hok Hnd Hi).
+  intros k Hin. cbn [keys_of] in Hin. apply in_flat_map in Hin. destruct Hin as (l & _ & Hk).
+  destruct l; cbn in Hk.
+  - destruct Hk as [<-|[]]. rewrite Htr. exact HG.
+  - destruct Hk as [<-|[]]. exact Hip.
+  - destruct (conn_on lim) eqn:Ec; [|destruct Hk]. destruct Hk as [<-|[]]. apply Hconn. reflexivity.
+Qed.
+
+(* ================= RateLimiterConfig -> limits ================= *)
+(* the nine rate / burst fields are not negative (the Go code does not validate them; see the report) *)
+Definition cfg_nonneg (c : config) : Prop :=
+  (0 <= GlobalRequestsPerSecond c /\ 0 <= PerIPRequestsPerSecond c /\ 0 <= PerIPBurstSize c /\
+   0 <= PerConnectionRequestsPerSecond c /\ 0 <= PerConnectionBurstSize c /\
+   0 <= ReadLargeOpsPerSecond c /\ 0 <= WriteLargeOpsPerSecond c /\ 0 <= ReaddirOpsPerSecond c /\
+   0 <= MountOpsPerMinute c)%Z.
+
+Lemma inject_Z_nonneg z : (0 <= z)%Z -> 0 <= inject_Z z.
+Proof. intros H. change 0 with (inject_Z 0). rewrite <- Zle_Qle. exact H. Qed.
+
+Lemma op_rate_nonneg c fd : (0 <= cfg_field c (fst fd))%Z -> (0 < snd fd)%Z -> 0 <= op_rate c fd.
+Proof.
+  intros H1 H2. unfold op_rate, fieldQ. rewrite Qred_correct. unfold Qdiv.
+  apply Qmult_le_0_compat; [apply inject_Z_nonneg; exact H1|].
+  apply Qinv_le_0_compat. apply inject_Z_nonneg. lia.
+Qed.
+
+Lemma limits_of_ok c : cfg_nonneg c -> lim_ok (limits_of c).
+Proof.
+  intros (H1 & H2 & H3 & H4 & H5 & H6 & H7 & H8 & H9) k.
+  destruct k as [|ip|cn|ip op]; [| | |destruct op]; cbn [limits_of rate_of burst_of]; split;
+    try (apply inject_Z_nonneg; vm_compute; discriminate);
+    try (apply inject_Z_nonneg; assumption);
+    try (apply op_rate_nonneg; [assumption|reflexivity]).
+Qed.
+
+(* the rates and bursts the real configuration gives each limiter (mount: per minute / 60) *)
+Lemma limits_of_values c ip cn :
+  rate_of (limits_of c) KGlobal = inject_Z (GlobalRequestsPerSecond c) /\
+  burst_of (limits_of c) KGlobal = inject_Z (GlobalRequestsPerSecond c) /\
+  rate_of (limits_of c) (KIP ip) = inject_Z (PerIPRequestsPerSecond c) /\
+  burst_of (limits_of c) (KIP ip) = inject_Z (PerIPBurstSize c) /\
+  rate_of (limits_of c) (KConn cn) = inject_Z (PerConnectionRequestsPerSecond c) /\
+  burst_of (limits_of c) (KConn cn) = inject_Z (PerConnectionBurstSize c) /\
+  conn_on (limits_of c) = (0 <? PerConnectionRequestsPerSecond c)%Z /\
+  rate_of (limits_of c) (KOp ip ReadLarge) == inject_Z (ReadLargeOpsPerSecond c) /\
+  burst_of (limits_of c) (KOp ip ReadLarge) = 10 /\
+  rate_of (limits_of c) (KOp ip WriteLarge) == inject_Z (WriteLargeOpsPerSecond c) /\
+  burst_of (limits_of c) (KOp ip WriteLarge) = 5 /\
+  rate_of (limits_of c) (KOp ip Readdir) == inject_Z (ReaddirOpsPerSecond c) /\
+  burst_of (limits_of c) (KOp ip Readdir) = 5 /\
+  rate_of (limits_of c) (KOp ip Mount) == inject_Z (MountOpsPerMinute c) / 60 /\
+  burst_of (limits_of c) (KOp ip Mount) = 2.
+Proof.
+  assert (H1 : forall x, x / inject_Z 1 == x) by (intros x; unfold Qdiv; change (/ inject_Z 1) with 1; ring).
+  repeat split; try reflexivity;
+    cbn [limits_of rate_of]; unfold op_rate, fieldQ; rewrite Qred_correct; cbn [fst snd]; try reflexivity.
+  all: apply H1.
+Qed.
+
+(* ================= a cleanup pass deletes a bucket only if it is idle:  Tokens() >= burst ================= *)
+Lemma cleanup_deletes_only_full e lim i st k now k' b :
+  inv lim (buckets st) now ->
+  find k' (buckets st) = Some b -> find k' (buckets (pre_cleanup e lim i st k now)) = None ->
+  burst_of lim k' <= tokens_at b now.
+Proof.
+  intros Hi Hf. unfold pre_cleanup. destruct k as [|ip|c|ip op]; try (rewrite Hf; discriminate).
+  - destruct (trig e i (KIP ip) now (lc_ip st)); [|rewrite Hf; discriminate]. cbn [buckets].
+    unfold cleanup_ip. rewrite (find_filter _ k' _ (inv_nodup _ _ _ Hi)), Hf.
+    match goal with |- context [if ?p then _ else _] => destruct p eqn:Ep end; [discriminate|]. intros _.
+    apply Qle_bool_true. exact (cleanup_ip_full lim (sel e i) now (buckets st) k' b Hf Ep).
+  - destruct (trig e i (KOp ip op) now (lc_op st)); [|rewrite Hf; discriminate]. cbn [buckets].
+    unfold cleanup_op. rewrite (find_filter _ k' _ (inv_nodup _ _ _ Hi)), Hf.
+    match goal with |- context [if ?p then _ else _] => destruct p eqn:Ep end; [discriminate|]. intros _.
+    apply Qle_bool_true. exact (cleanup_op_full lim now (buckets st) k' b Hf Ep).
+Qed.
